@@ -197,7 +197,10 @@ func TestC17(t *testing.T) {
 type c17bCase struct {
 	Linear bool  `json:"linear"`
 	N      int   `json:"n"`
-	TTL    int   `json:"ttl"` // 0 forever, 1 = 1 h (finite but long)
+	TTL    int   `json:"ttl"` // 0 forever, 1 = 1 h (finite but long), 2 = 1 ms (entries expire between requests)
+	// Reps > 1: every client writes that many facts, reading each one
+	// back right after its write was acknowledged.
+	Reps int `json:"reps,omitempty"`
 	Spin   []int `json:"spin"`
 	Noise  int   `json:"noise,omitempty"` // schedule noise (see noise_test.go)
 }
@@ -206,7 +209,8 @@ func genC17b(t *rapid.T) c17bCase {
 	var c c17bCase
 	c.Linear = rapid.Bool().Draw(t, "linear")
 	c.N = rapid.IntRange(2, 16).Draw(t, "n")
-	c.TTL = rapid.IntRange(0, 1).Draw(t, "ttl")
+	c.TTL = rapid.SampledFrom([]int{0, 1, 2, 2}).Draw(t, "ttl")
+	c.Reps = rapid.IntRange(1, 5).Draw(t, "reps")
 	for i := 0; i < c.N; i++ {
 		c.Spin = append(c.Spin, rapid.SampledFrom([]int{0, 0, 10, 100, 1000, 10000}).Draw(t, fmt.Sprintf("spin%d", i)))
 	}
@@ -223,8 +227,16 @@ func runC17b(c c17bCase) *vlib.Outcome {
 		return o
 	}
 	ttl := sys.Forever
-	if c.TTL == 1 {
+	switch c.TTL {
+	case 1:
 		ttl = time.Hour
+	case 2:
+		ttl = time.Millisecond
+		o.Label("ttl-1ms")
+	}
+	reps := c.Reps
+	if reps < 1 || reps > 20 {
+		reps = 1
 	}
 	s, err := c17System(c.Linear, false, ttl)
 	if err != nil {
@@ -243,6 +255,7 @@ func runC17b(c c17bCase) *vlib.Outcome {
 	start := make(chan struct{})
 	errs := make([]error, c.N)
 	locs := make([]*core.Location, c.N)
+	lost := make([]string, c.N)
 	for i := 0; i < c.N; i++ {
 		wg.Add(1)
 		go func(i int) {
@@ -254,7 +267,22 @@ func runC17b(c c17bCase) *vlib.Outcome {
 			}
 			_ = x
 			_, errs[i] = s.AddFact(newCtx(), "shared", fmt.Sprintf("c%d", i), fmt.Sprintf(`{"client":"c%d"}`, i))
-			locs[i], _ = s.GetLocation(newCtx(), "shared")
+			for r := 1; r < reps && errs[i] == nil; r++ {
+				// more writes, each read back as soon as it is
+				// acknowledged (whatever instance serves the read)
+				id := fmt.Sprintf("c%d.%d", i, r)
+				if _, err := s.AddFact(newCtx(), "shared", id, fmt.Sprintf(`{"round":"c%d.%d"}`, i, r)); err != nil {
+					errs[i] = err
+					break
+				}
+				if _, err := s.GetFact(newCtx(), "shared", id); err != nil {
+					lost[i] = fmt.Sprintf("%s (%v)", id, err)
+					break
+				}
+			}
+			if c.TTL != 2 {
+				locs[i], _ = s.GetLocation(newCtx(), "shared")
+			}
 		}(i)
 	}
 	close(start)
@@ -272,7 +300,11 @@ func runC17b(c c17bCase) *vlib.Outcome {
 			o.Fail("FIRST_REQUEST_FAILED", "client %d of %d: first request failed: %v", i, c.N, errs[i])
 			return o
 		}
-		if locs[i] != final {
+		if lost[i] != "" {
+			o.Fail("ACKNOWLEDGED_WRITE_MISSING", "%d concurrent clients, location TTL %v: client %d wrote fact %s, the write was acknowledged, and its own read right afterwards did not find it", c.N, ttl, i, lost[i])
+			return o
+		}
+		if c.TTL != 2 && locs[i] != final {
 			o.Fail("LOCATION_LOADED_TWICE", "%d concurrent first requests: client %d was served by a different location instance than the one that stays cached", c.N, i)
 		}
 	}
